@@ -17,7 +17,9 @@ macro_rules! registry {
 }
 
 registry! {
+    "C01" => c01,
     "C02" => c02,
+    "C05" => c05,
     "C15" => c15,
     "C16" => c16,
     "C17" => c17,
